@@ -341,3 +341,152 @@ pub fn replay(_ctx: &Ctx, check_name: &str, case: &Value) -> Result<(), Fail> {
         _ => Err(Fail::new("HARNESS|unknown-check", check_name.to_string())),
     }
 }
+
+// ---------------------------------------------------------------------------
+// Diagnostic for thread-count dependence that is not a schedule matter.
+//
+// A sieve that hands out its polynomials through a thread pool sieves a different subset of them
+// than the sequential loop.  For a few inputs (first seen: 30243404408989 = 30829 * 31321^2 on
+// Algo::Siqs) the congruences a sieve can produce are arithmetically degenerate: hardly any
+// combination x^2 = y^2 splits n, whichever polynomials are used, and the sequential run is
+// complete by luck.  To tell this apart from a relation set damaged by a race (lost, duplicated
+// or corrupted relations, a sieve stopped early), the failing threaded call is repeated with the
+// `relation_added` observer installed and the recorded relations go through an independent final
+// step: every congruence re-verified, duplicates removed, GF(2) elimination over base primes and
+// large primes, each kernel vector evaluated.  "Degenerate" = all congruences valid, at least 20
+// independent kernel vectors, at most one in ten of them splits n (a sound relation set splits n
+// with about every second vector).
+
+/// Independent final step over recorded relations: (distinct, all_valid, kernel_dim, splitting).
+pub fn independent_final_step(n_orig: &U1024, modulus: &U1024, adds: &[RelSer]) -> (usize, bool, usize, usize) {
+    use std::collections::{BTreeMap, HashSet};
+    let nr: Ref = widen(n_orig);
+    let mut seen = HashSet::new();
+    let mut rels: Vec<&RelSer> = vec![];
+    let mut all_valid = true;
+    for r in adds {
+        if !congruence_holds(modulus, &r.rel()) {
+            all_valid = false;
+        }
+        if seen.insert(r.x) {
+            rels.push(r);
+        }
+    }
+    // columns: -1, base primes, large primes (a cofactor without a recorded pair is one column)
+    let cols_of = |r: &RelSer| -> Vec<(i64, u64)> {
+        let mut v = r.factors.clone();
+        if r.cofactor != 1 {
+            match r.pq {
+                Some((p, q)) if p > 1 && q > 1 && (p as u128) * (q as u128) == r.cofactor as u128 => {
+                    v.push((p as i64, 1));
+                    v.push((q as i64, 1));
+                }
+                _ => v.push((r.cofactor as i64, 1)),
+            }
+        }
+        v
+    };
+    let mut colidx: BTreeMap<i64, usize> = BTreeMap::new();
+    for r in &rels {
+        for (f, _) in cols_of(r) {
+            let k = colidx.len();
+            colidx.entry(f).or_insert(k);
+        }
+    }
+    let ncols = colidx.len();
+    let nrel = rels.len();
+    let cw = ncols.div_ceil(64).max(1);
+    let rw = nrel.div_ceil(64).max(1);
+    // pivots[c] = (row bits, combination bits)
+    let mut pivots: Vec<Option<(Vec<u64>, Vec<u64>)>> = vec![None; ncols];
+    let mut kernel: Vec<Vec<u64>> = vec![];
+    for (i, r) in rels.iter().enumerate() {
+        let mut row = vec![0u64; cw];
+        for (f, k) in cols_of(r) {
+            if k % 2 == 1 {
+                let c = colidx[&f];
+                row[c / 64] ^= 1 << (c % 64);
+            }
+        }
+        let mut comb = vec![0u64; rw];
+        comb[i / 64] |= 1 << (i % 64);
+        loop {
+            let lead = row.iter().enumerate().rev().find(|(_, w)| **w != 0).map(|(j, w)| j * 64 + 63 - w.leading_zeros() as usize);
+            let Some(c) = lead else {
+                kernel.push(comb);
+                break;
+            };
+            match &pivots[c] {
+                Some((prow, pcomb)) => {
+                    for (a, b) in row.iter_mut().zip(prow) {
+                        *a ^= *b;
+                    }
+                    for (a, b) in comb.iter_mut().zip(pcomb) {
+                        *a ^= *b;
+                    }
+                }
+                None => {
+                    pivots[c] = Some((row, comb));
+                    break;
+                }
+            }
+        }
+    }
+    let mut splitting = 0;
+    for comb in kernel.iter().take(256) {
+        let mut x = Ref::ONE;
+        let mut exps: BTreeMap<i64, u64> = BTreeMap::new();
+        for (i, r) in rels.iter().enumerate() {
+            if comb[i / 64] >> (i % 64) & 1 == 1 {
+                x = (x * (widen(&r.x) % nr)) % nr;
+                for (f, k) in cols_of(r) {
+                    *exps.entry(f).or_insert(0) += k;
+                }
+            }
+        }
+        let mut y = Ref::ONE;
+        for (f, e) in exps {
+            if f > 0 {
+                y = (y * powmod(&(Ref::from(f as u64) % nr), &Ref::from(e / 2), &nr)) % nr;
+            }
+        }
+        let d = if x >= y { x - y } else { x + nr - y };
+        let g = crate::oracle::int::ref_gcd(&d, &nr);
+        if g > Ref::ONE && g < nr {
+            splitting += 1;
+        }
+    }
+    (nrel, all_valid, kernel.len(), splitting)
+}
+
+/// Worker side of the diagnostic: run the call with the observer installed.
+pub fn diagnose(n: &U1024, algo: Algo, prefs: &Preferences) -> Value {
+    RECORDER.lock().unwrap().clear();
+    yamaquasi::verif_sched::set_add_sink(Some(add_sink));
+    let r = crate::engine::catch(|| yamaquasi::factor(*n, algo, prefs));
+    yamaquasi::verif_sched::set_add_sink(None);
+    let recs = std::mem::take(&mut *RECORDER.lock().unwrap());
+    let outcome = match &r {
+        Ok(Ok(fs)) => serde_json::json!({"r": "ok", "f": fs.iter().map(|f| f.to_string()).collect::<Vec<_>>()}),
+        Ok(Err(_)) => serde_json::json!({"r": "err"}),
+        Err(p) => serde_json::json!({"r": "panic", "msg": p.msg, "loc": p.short_loc()}),
+    };
+    // relation stores whose modulus is a multiple of n (the top-level sieve, not recursive calls on cofactors)
+    let mut groups: Vec<(Uint, usize, u64, Vec<RelSer>)> = vec![];
+    for rec in recs {
+        match groups.iter_mut().find(|g| g.0 == rec.n && g.1 == rec.fbsize && g.2 == rec.maxlarge) {
+            Some(g) => g.3.push(rec.r),
+            None => groups.push((rec.n, rec.fbsize, rec.maxlarge, vec![rec.r])),
+        }
+    }
+    let mut out = vec![];
+    for (m, fbsize, _, adds) in &groups {
+        if n.is_zero() || !(*m % *n).is_zero() || adds.len() > 6000 {
+            continue;
+        }
+        let (distinct, valid, kdim, split) = independent_final_step(n, m, adds);
+        out.push(serde_json::json!({"modulus": m.to_string(), "fbsize": fbsize, "adds": adds.len(), "distinct": distinct,
+            "all_valid": valid, "kernel_dim": kdim, "splitting": split}));
+    }
+    serde_json::json!({"r": "diag", "outcome": outcome, "stores": out})
+}
